@@ -501,7 +501,7 @@ func main() {
 					}
 					var ps []pos
 					for k := 0; k < u.snaps[u.si].calls; k++ {
-						for _, out := range sim.AllFaults {
+						for _, out := range sim.EnumFaults {
 							ps = append(ps, pos{k, out})
 						}
 					}
